@@ -50,8 +50,8 @@ import Lungo.Props.C18
 import Lungo.Proofs.ArithLaws
 import Lungo.Proofs.AccessLaws
 import Lungo.Proofs.ApplyLaws
--- PENDING import Lungo.Proofs.NoPanic
--- PENDING import Lungo.Props.C11
+import Lungo.Proofs.NoPanic
+import Lungo.Props.C11
 import Lungo.Proofs.SortLaws
 -- PENDING import Lungo.Proofs.ProjectLaws
 -- PENDING import Lungo.Proofs.ProjectPaths
